@@ -103,7 +103,7 @@ def canon(tokens):
 def run(tier):
     t0 = time.time()
     v = vlib.Verdicts(PROP)
-    cfgp = os.path.join(vlib.BUILD, "c10-cfg.json")
+    cfgp = os.path.join(vlib.TMP, "c10-cfg.json")
     json.dump(config(), open(cfgp, "w"))
     recs, stats = [], {"states": 0, "transitions": 0}
     feature_sets = [("on", ("serde-compat",)), ("on", ("serde-compat", "no-serde-warnings")), ("off", ()), ("off", ("no-serde-warnings",))]
@@ -137,7 +137,7 @@ def run(tier):
                          "srcA": items[2 * n], "srcB": items[2 * n + 1], "pred_same": c["pred_same"],
                          "msgA": ta if ka != "OK" else "", "msgB": tb if kb != "OK" else ""})
     # ADJUDICATE
-    tpath = os.path.join(vlib.BUILD, "c10-trace.ndjson")
+    tpath = os.path.join(vlib.TMP, "c10-trace.ndjson")
     vlib.write_ndjson(tpath, [{"realA": r_["realA"], "realB": r_["realB"], "same": r_["same"], "pred_same": r_["pred_same"]} for r_ in recs])
     a = vlib.run_tlc("Trace_AttrEquiv", "Trace_AttrEquiv.cfg", workers=8, env={"VERIF_TRACE": tpath}, timeout=1200,
                      tags=("BAD", "DRIFT"), metatag="c10a")
